@@ -26,7 +26,7 @@ use std::time::Duration;
 pub static INFO: PropInfo = PropInfo {
     id: "C04",
     level: "fault_enumeration",
-    rule: "Two parts. (1) ENUMERATED COMPLETELY (exhaustive=true refers to this sub-space only): every history of 4 presentations over the sequence offsets {0,1,255,256,257,511,512} relative to a base (7^4 = 2401 ordered histories, a repeated offset is a replay of the identical datagram), for both directions (server receiving / client receiving) and two bases (1000 and 2^32-300), each on a freshly connected session with datagrams sealed by the crate's own encoder under the session key; one evaluation = one history. (2) SAMPLED: one evaluation = one live two-session run with 60..500 (thorough: ..3000) genuine payload / keep-alive datagrams per run in both directions (produced by generate_payload_packet / update, or sealed at chosen sequence numbers up to 2^64-1), presented in a seeded permutation with bounded or unbounded displacement, interleaved with replays at distances {1,2,255,256,257,512,random}, single-bit flips, truncations, extensions, rewritten sequence bytes (also of datagrams not yet presented), datagrams of session A on session B's address / client, an unknown address, the reverse direction, the same plaintext sealed under the other session's key or another protocol id, and a final genuine disconnect followed by more replays. The oracle is the ledger + 256-entry reference window of DESIGN appendix B, stepped on every genuine replay-protected datagram (keep-alive, payload, disconnect share one window). Non-trivial = the execution contained at least one rejected replay or one fresh datagram behind the highest accepted sequence (sampled runs: both, plus at least one hostile presentation); distinct = distinct fingerprints of (direction, sequence, kind of presentation, surfaced?) histories. Genuine datagrams are tracked by identity (ledger id), not by sequence number: two different datagrams from the library's own generators that announce one sequence number are both genuine and each must surface on its first arrival. In the FAIL-OVER runs every payload of the first server is presented to the still-responding client twice: the second copy of one datagram never surfaces, whatever the first did. One run in 25 is a FAIL-OVER run: a token lists two servers sharing the private key; the first accepts the client, its keep-alive is lost, 1-300 payloads it streams reach the still-responding client, then it falls silent; the client moves to the second server, and every payload that server generates (delivered once, in order, unmodified, while the client reports connected) must surface byte-identical. Peer addresses include IPv6 link-local sources with a scope id or a flow label and IPv4-mapped sources (a session is found again by exactly the address its datagrams come from). A quarter of the sessions of the sampled runs are established right after an abandoned attempt from the same address (another token presented, its client gave up with one to three sealed Disconnect datagrams): the session that follows has its own replay window. Among the hostile presentations is a stale ConnectionDenied of the session's own token (sealed under the server-to-client key with a server-global sequence from 2^63 up, not replay-protected) handed to the connected client: nothing surfaces and the replay window stays where it is.",
+    rule: "Two parts. (1) ENUMERATED COMPLETELY (exhaustive=true refers to this sub-space only): every history of 4 presentations over the sequence offsets {0,1,255,256,257,511,512} relative to a base (7^4 = 2401 ordered histories, a repeated offset is a replay of the identical datagram), for both directions (server receiving / client receiving) and two bases (1000 and 2^32-300), each on a freshly connected session with datagrams sealed by the crate's own encoder under the session key; one evaluation = one history. (2) SAMPLED: one evaluation = one live two-session run with 60..500 (thorough: ..3000) genuine payload / keep-alive datagrams per run in both directions (produced by generate_payload_packet / update, or sealed at chosen sequence numbers up to 2^64-1), presented in a seeded permutation with bounded or unbounded displacement, interleaved with replays at distances {1,2,255,256,257,512,random}, single-bit flips, truncations, extensions, rewritten sequence bytes (also of datagrams not yet presented), datagrams of session A on session B's address / client, an unknown address, the reverse direction, the same plaintext sealed under the other session's key or another protocol id, and a final genuine disconnect followed by more replays. The oracle is the ledger + 256-entry reference window of DESIGN appendix B, stepped on every genuine replay-protected datagram (keep-alive, payload, disconnect share one window). Non-trivial = the execution contained at least one rejected replay or one fresh datagram behind the highest accepted sequence (sampled runs: both, plus at least one hostile presentation); distinct = distinct fingerprints of (direction, sequence, kind of presentation, surfaced?) histories. Genuine datagrams are tracked by identity (ledger id), not by sequence number: two different datagrams from the library's own generators that announce one sequence number are both genuine and each must surface on its first arrival. In the FAIL-OVER runs every payload of the first server is presented to the still-responding client twice: the second copy of one datagram never surfaces, whatever the first did. One run in 25 is a FAIL-OVER run: a token lists two servers sharing the private key; the first accepts the client, its keep-alive is lost, 1-300 payloads it streams reach the still-responding client, then it falls silent; the client moves to the second server, and every payload that server generates (delivered once, in order, unmodified, while the client reports connected) must surface byte-identical. Peer addresses include IPv6 link-local sources with a scope id or a flow label and IPv4-mapped sources (a session is found again by exactly the address its datagrams come from). A quarter of the sessions of the sampled runs are established right after an abandoned attempt from the same address (another token presented, its client gave up with one to three sealed Disconnect datagrams): the session that follows has its own replay window. Among the hostile presentations is a stale ConnectionDenied of the session's own token (sealed under the server-to-client key with a server-global sequence from 2^63 up, not replay-protected) handed to the connected client: nothing surfaces and the replay window stays where it is. After a genuine disconnect, in half of the runs late duplicates of the client's own connection response(s) are presented (no new request, so no half-open session exists for them) before the replays of the finished session's datagrams: none of those may surface again.",
     assumptions: &[
         "AEAD unforgeability is assumed (no attempt to forge a tag)",
         "datagrams sealed with the crate's encoder under the session key at a chosen sequence number count as generated by the session peer (the only way to reach sequence numbers >= 2^32)",
